@@ -81,9 +81,10 @@ class SymAutomations(tuple):
         return (tuple, ((),))
 
 
-def base_cfg(code: str, n: int, stacks: Any, mode: str, boards: int) -> dict:
+def base_cfg(code: str, n: int, stacks: Any, mode: str, boards: int, antes: Any = 1) -> dict:
     cfg: dict = dict(n=n, stacks=tuple(stacks), mode=Mode.TOURNAMENT if mode == 'T' else Mode.CASH_GAME,
-                     starting_board_count=boards, antes=1)
+                     starting_board_count=boards, antes=antes if isinstance(antes, int) else tuple(antes),
+                     ante_trimming_status=isinstance(antes, int))
     if C.is_stud(code):
         cfg.update(bring_in=1, small_bet=2, big_bet=4)
     else:
@@ -153,7 +154,15 @@ def run_hand(ctx: Any, st: Any, script: str, reverse: bool, limit: int) -> None:
             op = pending(st, None, reverse)
             if op is None:
                 ctx.fail('stuck', lambda: f'hand not over, nothing available; last ops {[type(o).__name__ for o in st.operations[-4:]]}')
-            C.call(ctx, getattr(st, op))
+            if op == 'select_runout_count':
+                # the players' choice: any preference is a legal operation
+                if st.player_count == 2:
+                    p = ctx.choice(f'pref{len(st.operations)}', 4)
+                else:
+                    p = 2 * ctx.choice(f'pref{len(st.operations)}', 2)
+                C.call(ctx, st.select_runout_count, None if p == 0 else p)
+            else:
+                C.call(ctx, getattr(st, op))
         ctx.check(len(st.operations) > n_ops, 'no-progress')
         ctx.ops += len(st.operations) - n_ops
         check_phase(ctx, st, f'step {steps}')
@@ -162,14 +171,15 @@ def run_hand(ctx: Any, st: Any, script: str, reverse: bool, limit: int) -> None:
 
 
 def h_phases(ctx: Any, code: str, n: int, script: str, stacks: Any, mode: str = 'C', boards: int = 1,
-             deck: str = 'identity', reverse: bool = False, fixed: Any = None, sym_stack: int = -1) -> None:
+             deck: str = 'identity', reverse: bool = False, fixed: Any = None, sym_stack: int = -1,
+             antes: Any = 1) -> None:
     C.native_hands()
     C.set_deck_order(deck)
     warnings.simplefilter('ignore')
     stacks = list(stacks)
     if sym_stack >= 0:
         stacks[sym_stack] = ctx.int('s', 1, 200)
-    cfg = base_cfg(code, n, stacks, mode, boards)
+    cfg = base_cfg(code, n, stacks, mode, boards, antes)
     autos = SymAutomations(ctx, fixed)
     cfg['automations'] = autos
     try:
@@ -231,7 +241,7 @@ def auto_play(ctx: Any, st: Any, script: str, limit: int) -> None:
 
 
 def h_equiv(ctx: Any, code: str, n: int, script: str, stacks: Any, mode: str = 'C', boards: int = 1,
-            deck: str = 'identity', fixed: Any = None, sym_stack: int = -1) -> None:
+            deck: str = 'identity', fixed: Any = None, sym_stack: int = -1, antes: Any = 1) -> None:
     """C09: automated run == un-automated twin (operations, players, amounts, cards, final state)."""
     from harness.c08 import snapshot, same
     C.native_hands()
@@ -241,7 +251,7 @@ def h_equiv(ctx: Any, code: str, n: int, script: str, stacks: Any, mode: str = '
     if sym_stack >= 0:
         stacks[sym_stack] = ctx.int('s', 1, 200)
     autos = SymAutomations(ctx, fixed)
-    cfg = base_cfg(code, n, stacks, mode, boards)
+    cfg = base_cfg(code, n, stacks, mode, boards, antes)
     a = C.call(ctx, C.make_state, code, dict(cfg, automations=autos))
     auto_play(ctx, a, script, 80 + 60 * n)
     b = C.make_state(code, dict(cfg, automations=()))
@@ -264,8 +274,11 @@ def _op_leaves(op: Any) -> list:
 
 
 CASES = [
-    # code, n, stacks, boards, scripts
+    # code, n, stacks, boards, scripts[, antes]
     ('NT', 2, (50, 50), 1, ['cc', 'f', 'Rc', 'rcf', 'crc']),
+    ('NT', 2, (3, 50), 1, ['cc'], (0, 2)),       # big-blind ante, short big blind
+    ('NT', 2, (50, 2), 1, ['cc'], (0, 2)),       # big-blind ante, short small blind
+    ('NT', 3, (2, 3, 50), 1, ['cc'], (0, 2, 0)),
     ('NT', 3, (50, 20, 5), 1, ['ccc', 'Rcc', 'Rcf', 'ff', 'rRcc']),
     ('FT', 2, (9, 30), 1, ['crrc', 'rrrrc', 'cc']),
     ('PO', 2, (40, 40), 2, ['cc', 'Rc']),
@@ -284,14 +297,17 @@ def _jobs(fn: str, tier: str, cover: list) -> list[dict]:
     out = []
     B = 300 if tier == 'quick' else 900
     cases = CASES + (MORE if tier == 'thorough' else [])
-    for code, n, stacks, boards, scripts in cases:
+    for case in cases:
+        code, n, stacks, boards, scripts = case[:5]
+        antes = case[5] if len(case) > 5 else 1
         for script in scripts:
             for mode in ('C', 'T'):
                 if tier == 'quick' and mode == 'T' and script not in ('Rc', 'Rcc', 'ccc', 'cc', 'bc', 'crrc'):
                     continue
-                out.append(dict(name=f'{code}/n{n}/{script}/{mode}', fn=fn, traced=False,
+                tag = '' if antes == 1 else '/antes' + '-'.join(map(str, antes)) + '/stacks' + '-'.join(map(str, stacks))
+                out.append(dict(name=f'{code}/n{n}/{script}/{mode}{tag}', fn=fn, traced=False,
                                 params=dict(code=code, n=n, script=script, stacks=stacks, mode=mode,
-                                            boards=boards),
+                                            boards=boards, antes=antes),
                                 budget_s=B, must_cover=cover))
     # symbolic stack + 4 symbolic automation bits (traced)
     fixed = {a.name: True for a in Automation}
@@ -305,6 +321,12 @@ def _jobs(fn: str, tier: str, cover: list) -> list[dict]:
                         params=dict(code=code, n=n, script=script, stacks=stacks, mode='C', fixed=fixed,
                                     sym_stack=n - 1),
                         budget_s=max(B, 600), must_cover=cover, prio=9))
+    allon = {a.name: True for a in Automation}
+    for seat in (0, 1):
+        out.append(dict(name=f'sym-stack/NT/n2/cc/bb-ante/seat{seat}', fn=fn,
+                        params=dict(code='NT', n=2, script='cc', stacks=(50, 50), mode='T', fixed=allon,
+                                    sym_stack=seat, antes=(0, 2)),
+                        budget_s=max(B, 600), must_cover=cover, prio=8))
     return out
 
 
